@@ -37,7 +37,7 @@ def grow(cases, chooser, rnd, max_events=400, max_rounds=450, exe=None):
             if c.meta["probe"] is not None:
                 # answer the pending call that the probe revealed
                 sysents = [(k, a) for k, a in tr if 1 <= k <= 7]
-                idx = len(c.evs)
+                idx = sum(1 for k, _ in c.evs if k != 8)
                 if idx >= len(sysents):
                     continue
                 k, a = sysents[idx]
@@ -51,6 +51,15 @@ def grow(cases, chooser, rnd, max_events=400, max_rounds=450, exe=None):
                 continue
             if end[0] == 99 and end[1][0] == 1 and 1 <= end[1][1] <= 7 and end[1][2] == 0:
                 c.meta["probe"] = end[1][1]
+                nxt.append(c)
+            elif end[0] == 99 and end[1][0] == 1 and end[1][1] == 8:
+                # the scripted TLS engine is asked for its next call (announced by the K_ENGCALL entry just before)
+                call = next((a for k, a in reversed(tr) if k == 42), None)
+                ans = chooser(c, 8, call, tr, rnd) if call else None
+                if ans is None or len(c.evs) >= max_events:
+                    c.meta["blocked"] = True
+                    continue
+                c.evs.append((8, ans))
                 nxt.append(c)
             # else: finished (completed, malformed, stuck)
         active = nxt
